@@ -619,7 +619,16 @@ fn gen_pool(rng: &mut Rng) -> Vec<Raw> {
             _ => src.0,
         };
         // cross: bh2 of the source at log becomes bh1 at log+1, and vice versa
-        let (a, b) = if log == (src.0 + 1).min(30) && rng.chance(1, 2) {
+        let (a, b) = if log == src.0 && rng.chance(1, 4) {
+            // same block size, one block hash shared with the source, or the
+            // two block hashes of the new member identical
+            match rng.below(4) {
+                0 => (src.1.clone(), mutate_bh(rng, &src.2, cap_b)),
+                1 => (mutate_bh(rng, &src.1, 64), src.2.clone()),
+                2 => (src.1.clone(), { let mut x = src.1.clone(); x.truncate(cap_b); x }),
+                _ => (src.2.clone(), src.2.clone()),
+            }
+        } else if log == (src.0 + 1).min(30) && rng.chance(1, 2) {
             (src.2.clone(), mutate_bh(rng, &src.2, cap_b))
         } else if log + 1 == src.0 && rng.chance(1, 2) {
             (mutate_bh(rng, &src.1, 64), { let mut x = src.1.clone(); x.truncate(cap_b); x })
